@@ -24,7 +24,7 @@ SEED_A = """seed deck a
 2 2 0.05 -1 -2 imp:n=1
 3 0 1 -3 imp:n=1
 4 0 3 #5 imp:n=0
-5 like 1 but rho -1.5 trcl=(20 0 0)
+5 like 1 but rho -1.5 trcl=( 20 0.5 0 )
 
 1 so 3
 2 7 px 0.5
@@ -35,9 +35,9 @@ m1 13027 1 8016 0.5
 m2 1001 2 8016 1
 """
 SEED_B = """seed deck b
-1 0 -1 fill=1 (2 0 0)
+1 0 -1 fill=1 ( 2 0 0.25 )
 2 0 1 -2 fill=1
-3 like 2 but trcl=(0 0 1)
+3 like 2 but *trcl=( 0 0 1.5 0 90 90 90 0 90 90 90 0 )
 4 0 2 #3
 11 1 -2.7 -11 u=1
 12 2 -1.5 11 u=1
@@ -79,6 +79,9 @@ imp:n 1 1 0 1 4r
 def respell(block, words, j):
     if block == 0:
         if j >= 1 and words[j - 1] == 'rho':       # LIKE n BUT RHO x ('=' and blank are equivalent)
+            return True
+        # entries of an inline TRCL / FILL transformation: the words between a lone '(' and a lone ')'
+        if '(' in words[:j] and ')' in words[j + 1:] and words[:j].count('(') > words[:j].count(')'):
             return True
         return j == 2 and words[1] != '0' and words[1] != 'like'
     if block == 1:
